@@ -1,1 +1,565 @@
-fn main() {}
+//! mon-proof — property C11: certified transaction, block and stake sets are reported exactly as
+//! signed.  `mon-proof C11 --tier quick|thorough [--replay FILE]`
+mod agg;
+mod c06;
+mod chain;
+mod oracle;
+mod stake;
+mod tamper;
+
+use rand_chacha::ChaCha20Rng;
+use serde_json::{json, Value};
+use sha2::{Digest, Sha256};
+use std::collections::{BTreeMap, HashMap};
+use std::path::PathBuf;
+use vcore::{rnd, Monitor, Tier};
+
+use agg::{Agg, Cert, CertKind};
+use chain::{hex_hash, range_start, Block, Chain};
+use oracle::{Fmt, Outcome, Resp};
+
+struct Sizes {
+    shards: u64,
+    worlds_per_shard: u64,
+    beacons: (u64, u64),
+    queries_fresh: usize,
+    queries_ahead: usize,
+    stake_cases: usize,
+}
+
+fn main() {
+    let args = vcore::parse_args();
+    vcore::install_panic_hook();
+    let mut mon = Monitor::new(&args);
+    if args.prop != "C11" {
+        eprintln!("mon-proof: unknown property {}", args.prop);
+        std::process::exit(2);
+    }
+    if let Some(f) = &args.replay {
+        replay(f);
+        return;
+    }
+    let sizes = match args.tier {
+        Tier::Quick => Sizes { shards: 16, worlds_per_shard: 2, beacons: (2, 3), queries_fresh: 5, queries_ahead: 2, stake_cases: 8 },
+        Tier::Thorough => Sizes { shards: 64, worlds_per_shard: 10, beacons: (2, 5), queries_fresh: 8, queries_ahead: 3, stake_cases: 40 },
+    };
+    let base = std::env::temp_dir().join(format!("verif-c11-{}-{}", std::process::id(), args.seed));
+    let _ = std::fs::remove_dir_all(&base);
+    let threads = vcore::default_threads();
+    vcore::run_shards(&mut mon, sizes.shards, threads, |shard, m| {
+        let rt = match tokio::runtime::Builder::new_multi_thread().worker_threads(2).enable_all().build() {
+            Ok(rt) => rt,
+            Err(e) => {
+                m.inconclusive(&format!("cannot start a tokio runtime: {e}"));
+                return;
+            }
+        };
+        for w in 0..sizes.worlds_per_shard {
+            let dir = base.join(format!("s{shard}-w{w}"));
+            let r = vcore::catch(|| rt.block_on(run_world(shard, w, dir.clone(), m, &sizes)));
+            let _ = std::fs::remove_dir_all(&dir);
+            match r {
+                Ok(Ok(())) => {}
+                Ok(Err(e)) => m.inconclusive(&format!("world s{shard}-w{w}: harness error: {}", format!("{e:?}").chars().take(400).collect::<String>())),
+                Err(p) => m.inconclusive(&format!("world s{shard}-w{w}: panic in the harness or the honest services: {p}")),
+            }
+        }
+    });
+    let _ = std::fs::remove_dir_all(&base);
+    // extra counter group (property C06): client-side aggregate verification key recomputation
+    let thorough = args.tier == Tier::Thorough;
+    let tasks = c06::tasks(thorough);
+    vcore::run_shards(&mut mon, tasks.len() as u64, threads, |i, m| c06::run_task(tasks[i as usize], m, thorough));
+
+    mon.extra.insert(
+        "honest_side".into(),
+        json!("REAL services wired by mithril_aggregator::dependency_injection::DependenciesBuilder over file-backed sqlite: AggregatorCardanoChainDataRepository, CardanoChainDataImporter (fed by the harness chain through a BlockScanner), MithrilProverService, LegacyMithrilProverService, CardanoTransactionsSignableBuilder, CardanoBlocksTransactionsSignableBuilder, StakePoolStore + CardanoStakeDistributionSignableBuilder; the HTTP handlers' response assembly (private) is mirrored in agg.rs::serve_*"),
+    );
+    mon.finish(
+        "worlds = generated chains (30-400 blocks, sparse block numbers incl. skipped block ranges, 0-4 txs per block, quiet zones) imported by the real importer into the aggregator's sqlite chain store; 2-5 signing rounds per chain at beacons on / inside / before range boundaries, in gaps, at and beyond the tip; queries (present in 1-6 block ranges, absent, beyond the beacon, in the partial last range, large) answered by the real prover services right after the artifact step and again after the store has been imported for the next beacon; every honest response of the 3 formats (legacy tx-hash sets, v2 transactions, v2 blocks) is altered by every mutator of tamper.rs (items added/renamed/moved, field edits, separator and digit-boundary games, proofs swapped/forged/detached at every layer, several set proofs under different roots, latest block number / offset / certificate hash edits, certified<->non_certified moves, raw JSON type edits) and pushed through deserialize -> verify -> MessageBuilder::compute_* -> match_message against the certificate it names. Oracle = ground truth chain: accepted => every claimed item is in the chain at or below the certificate's beacon with exactly the claimed fields, is a leaf of its own proof, all proofs have one root = the signed root, latest block number and offset are the signed ones, certificate is of the right entity type; honest responses must be accepted. Stake distributions: 1-60 pools signed by the real signable builder over the real stake store, served maps edited (stakes, ids, pools, epoch, certificate, digits moved between id and stake); accepted => served == certified. Non-trivial = a response whose claims the oracle finds false (an acceptance would be a violation) or an honest response; distinct = distinct (format, mutator, wire text).",
+        &[
+            "hash collision resistance of Blake2s/SHA-256; MKMapProof::leaves()/compute_root() of mithril-merkle-tree used as reference accessors (the Merkle layer itself is C09)",
+            "certificate chain validation is C03: the harness certificate store holds exactly the certificates whose protocol message was produced by the real signable builders",
+            "response assembly of the private HTTP handlers mirrored, not linked",
+            "moving an item from certified to non_certified, duplicating an item, re-ordering sub-proofs and editing unsigned display fields (hash, created_at) leave every certified claim true: counted (BENIGN_*), not violations",
+        ],
+        400,
+    );
+}
+
+fn sha(s: &str) -> String {
+    hex::encode(&Sha256::digest(s.as_bytes())[..12])
+}
+
+// -------------------------------------------------------------------------------------------------
+
+fn pick_beacons(chain: &Chain, rng: &mut ChaCha20Rng, k: usize) -> Vec<u64> {
+    let first = chain.first();
+    let tip = chain.tip();
+    let mut out: Vec<u64> = vec![];
+    let mut guard = 0;
+    while out.len() < k && guard < 200 {
+        guard += 1;
+        let blk = &chain.blocks[rnd::usize_below(rng, chain.blocks.len())];
+        let b = match rnd::below(rng, 9) {
+            0 => blk.number,                                         // exactly a block
+            1 => range_start(blk.number) + chain::RANGE - 1,         // last number of a range
+            2 => range_start(blk.number),                            // first number of a range
+            3 => range_start(blk.number).saturating_sub(1),          // last number of the previous range
+            4 => blk.number + 1,                                     // possibly a gap
+            5 => tip,                                                // the tip
+            6 => tip + rnd::range(rng, 1, 40),                       // beyond the tip
+            7 => rnd::range(rng, first, tip),                        // anywhere (often a gap)
+            _ => blk.number.saturating_sub(rnd::below(rng, 3)),
+        };
+        // at least a few blocks below the beacon
+        if chain.blocks_upto(b).len() >= 3 && !out.contains(&b) {
+            out.push(b);
+        }
+    }
+    out.sort();
+    out
+}
+
+/// items (hash, block) at or below the beacon, grouped by block range
+fn items_by_range<'a>(fmt: Fmt, chain: &'a Chain, beacon: u64) -> BTreeMap<u64, Vec<(String, &'a Block)>> {
+    let mut m: BTreeMap<u64, Vec<(String, &Block)>> = BTreeMap::new();
+    for b in chain.blocks_upto(beacon) {
+        let e = m.entry(range_start(b.number)).or_default();
+        match fmt {
+            Fmt::BlkV2 => e.push((b.hash.clone(), b)),
+            _ => {
+                for t in &b.txs {
+                    e.push((t.clone(), b));
+                }
+            }
+        }
+    }
+    m.retain(|_, v| !v.is_empty());
+    m
+}
+
+fn gen_query(fmt: Fmt, chain: &Chain, beacon: u64, rng: &mut ChaCha20Rng, kind: u64) -> (String, Vec<String>) {
+    let by_range = items_by_range(fmt, chain, beacon);
+    let ranges: Vec<u64> = by_range.keys().cloned().collect();
+    let beyond: Vec<String> = chain
+        .blocks_after(beacon)
+        .iter()
+        .flat_map(|b| match fmt {
+            Fmt::BlkV2 => vec![b.hash.clone()],
+            _ => b.txs.clone(),
+        })
+        .collect();
+    let mut q: Vec<String> = vec![];
+    let take_from = |r: u64, n: usize, rng: &mut ChaCha20Rng, q: &mut Vec<String>| {
+        let v = &by_range[&r];
+        for _ in 0..n {
+            q.push(v[rnd::usize_below(rng, v.len())].0.clone());
+        }
+    };
+    let name;
+    match kind {
+        0 => {
+            name = "present_one_range";
+            if !ranges.is_empty() {
+                let r = *rnd::pick(rng, &ranges);
+                take_from(r, rnd::range(rng, 1, 3) as usize, rng, &mut q);
+            }
+        }
+        1 => {
+            name = "present_2_to_6_ranges";
+            if !ranges.is_empty() {
+                let k = rnd::range(rng, 2, 6) as usize;
+                let mut rs = ranges.clone();
+                rnd::shuffle(rng, &mut rs);
+                for r in rs.into_iter().take(k) {
+                    take_from(r, rnd::range(rng, 1, 2) as usize, rng, &mut q);
+                }
+            }
+        }
+        2 => {
+            name = "absent_only";
+            for _ in 0..rnd::range(rng, 1, 3) {
+                q.push(hex_hash(rng));
+            }
+        }
+        3 => {
+            name = "mixed_present_absent_beyond";
+            if !ranges.is_empty() {
+                let k = rnd::range(rng, 1, 4) as usize;
+                let mut rs = ranges.clone();
+                rnd::shuffle(rng, &mut rs);
+                for r in rs.into_iter().take(k) {
+                    take_from(r, 1, rng, &mut q);
+                }
+            }
+            q.push(hex_hash(rng));
+            if !beyond.is_empty() {
+                q.push(rnd::pick(rng, &beyond).clone());
+            }
+        }
+        4 => {
+            name = "beyond_beacon_only";
+            if beyond.is_empty() {
+                q.push(hex_hash(rng));
+            } else {
+                for _ in 0..rnd::range(rng, 1, 2) {
+                    q.push(rnd::pick(rng, &beyond).clone());
+                }
+            }
+        }
+        5 => {
+            name = "last_range_and_beacon_block";
+            if let Some(r) = ranges.last() {
+                let v = &by_range[r];
+                q.push(v.last().unwrap().0.clone());
+                q.push(v[rnd::usize_below(rng, v.len())].0.clone());
+            }
+            if ranges.len() > 1 && rnd::chance(rng, 1, 2) {
+                take_from(ranges[0], 1, rng, &mut q);
+            }
+        }
+        _ => {
+            name = "large";
+            for r in &ranges {
+                if q.len() >= 24 {
+                    break;
+                }
+                if rnd::chance(rng, 2, 3) {
+                    take_from(*r, rnd::range(rng, 1, 3) as usize, rng, &mut q);
+                }
+            }
+            q.push(hex_hash(rng));
+        }
+    }
+    if q.is_empty() {
+        q.push(hex_hash(rng));
+    }
+    (name.to_string(), agg::sanitize(&q))
+}
+
+async fn serve(agg: &Agg, fmt: Fmt, cert: &Cert, q: &[String]) -> anyhow::Result<Resp> {
+    Ok(match fmt {
+        Fmt::Legacy => Resp::Legacy(agg.serve_legacy(cert, q).await?),
+        Fmt::TxV2 => Resp::TxV2(agg.serve_tx_v2(cert, q).await?),
+        Fmt::BlkV2 => Resp::BlkV2(agg.serve_blk_v2(cert, q).await?),
+    })
+}
+
+fn has_proof(r: &Resp) -> bool {
+    match r {
+        Resp::Legacy(m) => !m.certified_transactions.is_empty(),
+        Resp::TxV2(m) => m.certified_transactions.is_some(),
+        Resp::BlkV2(m) => m.certified_blocks.is_some(),
+    }
+}
+
+struct WorldState<'a> {
+    tag: String,
+    chain: &'a Chain,
+    certs: Vec<Cert>,
+    cert_map: HashMap<String, Cert>,
+    /// honest responses with proof material seen so far: (format, certificate hash, response)
+    history: Vec<(Fmt, String, Resp)>,
+}
+
+async fn run_world(shard: u64, w: u64, dir: PathBuf, mon: &mut Monitor, sizes: &Sizes) -> anyhow::Result<()> {
+    let mut rng = mon.rng("world", shard * 1000 + w);
+    let chain = Chain::generate(&mut rng);
+    let chunk = *rnd::pick(&mut rng, &[1usize, 7, 50, 1000]);
+    let mut agg = Agg::build(&dir, &chain, chunk).await?;
+    let k = rnd::range(&mut rng, sizes.beacons.0, sizes.beacons.1) as usize;
+    let beacons = pick_beacons(&chain, &mut rng, k);
+    mon.count("worlds");
+    mon.count_n("world|blocks", chain.blocks.len() as u64);
+    mon.count_n("world|transactions", chain.tx_count() as u64);
+    mon.count_n("world|signing_rounds", beacons.len() as u64);
+    let mut st = WorldState { tag: format!("s{shard}-w{w}"), chain: &chain, certs: vec![], cert_map: HashMap::new(), history: vec![] };
+    let epoch = 100 + shard;
+    let mut prev: Option<(Cert, Cert)> = None;
+    for (i, &b) in beacons.iter().enumerate() {
+        let offset = *rnd::pick(&mut rng, &[0u64, 0, 1, 7, 15, 30, 100, 2160]);
+        // signing round: the real signable builders import up to the beacon and compute the roots
+        let cl = agg.sign_legacy(epoch + i as u64, b).await?;
+        let cv = agg.sign_v2(epoch + i as u64, b, offset).await?;
+        for c in [&cl, &cv] {
+            st.certs.push(c.clone());
+            st.cert_map.insert(c.hash().to_string(), c.clone());
+        }
+        mon.count(&format!(
+            "beacon|{}",
+            if b > chain.tip() { "beyond_tip" } else if b == chain.tip() { "at_tip" } else if (b + 1) % chain::RANGE == 0 { "range_complete" } else if !chain.blocks.iter().any(|x| x.number == b) { "in_gap" } else { "inside_range" }
+        ));
+        // the previous certificate is still the latest signed entity while the store is already
+        // imported for the new beacon
+        if let Some((pl, pv)) = &prev {
+            for (fmt, cert) in [(Fmt::Legacy, pl), (Fmt::TxV2, pv), (Fmt::BlkV2, pv)] {
+                for _ in 0..sizes.queries_ahead {
+                    let kind = rnd::below(&mut rng, 7);
+                    one_query(&agg, &mut st, mon, &mut rng, fmt, cert, kind, "store_ahead").await?;
+                }
+            }
+        }
+        // artifact creation: prover caches are rebuilt for the new beacon
+        agg.artifact_created(b).await?;
+        for (fmt, cert) in [(Fmt::Legacy, &cl), (Fmt::TxV2, &cv), (Fmt::BlkV2, &cv)] {
+            for qn in 0..sizes.queries_fresh {
+                let kind = if qn < 7 { (qn as u64 + shard + w) % 7 } else { rnd::below(&mut rng, 7) };
+                one_query(&agg, &mut st, mon, &mut rng, fmt, cert, kind, "fresh").await?;
+            }
+        }
+        prev = Some((cl, cv));
+    }
+    // stake distributions of this world (their certificates join the same certificate store)
+    let WorldState { tag, mut certs, mut cert_map, .. } = st;
+    stake::run(&mut agg, &mut certs, &mut cert_map, mon, &mut rng, sizes.stake_cases, 1000 + shard * 100 + w * 50, &tag).await;
+    agg.builder.drop_sqlite_connections().await;
+    drop(agg);
+    Ok(())
+}
+
+async fn one_query(
+    agg: &Agg,
+    st: &mut WorldState<'_>,
+    mon: &mut Monitor,
+    rng: &mut ChaCha20Rng,
+    fmt: Fmt,
+    cert: &Cert,
+    kind: u64,
+    state: &str,
+) -> anyhow::Result<()> {
+    let chain = st.chain;
+    let (qname, q) = gen_query(fmt, chain, cert.beacon, rng, kind);
+    let honest = serve(agg, fmt, cert, &q).await?;
+    mon.count(&format!("{}|query|{}|{}", fmt.as_str(), qname, state));
+    mon.count_n(&format!("{}|honest_certified_items", fmt.as_str()), honest.certified_count() as u64);
+    mon.count_n(&format!("{}|honest_non_certified_items", fmt.as_str()), honest.non_certified_count() as u64);
+    // how many queried items at or below the beacon the honest prover did not certify
+    {
+        let claimed: Vec<String> = match oracle::claimed(&honest) {
+            oracle::Reported::Tx(v) => v,
+            oracle::Reported::TxV2(v) => v.into_iter().map(|t| t.transaction_hash).collect(),
+            oracle::Reported::Blk(v) => v.into_iter().map(|b| b.block_hash).collect(),
+        };
+        for h in &q {
+            let blk = if fmt == Fmt::BlkV2 { chain.block_by_hash(h) } else { chain.block_of_tx(h) };
+            if let Some(b) = blk {
+                if b.number <= cert.beacon && !claimed.contains(h) {
+                    let partial = range_start(b.number) + chain::RANGE - 1 > cert.beacon;
+                    mon.count(&format!("{}|honest_left_uncertified_below_beacon|{}", fmt.as_str(), if partial { "in_partial_last_range" } else { "in_complete_range" }));
+                }
+            }
+        }
+    }
+    // auxiliary honest material for swaps
+    let k2 = rnd::below(rng, 2);
+    let (_, q2) = gen_query(fmt, chain, cert.beacon, rng, k2);
+    let other_same = serve(agg, fmt, cert, &q2).await.ok().filter(has_proof);
+    let split = if fmt == Fmt::Legacy {
+        let present: Vec<String> = q.iter().filter(|h| chain.block_of_tx(h).map(|b| b.number <= cert.beacon).unwrap_or(false)).cloned().collect();
+        if present.len() >= 2 {
+            let (a, b) = present.split_at(present.len() / 2);
+            match (serve(agg, fmt, cert, a).await, serve(agg, fmt, cert, b).await) {
+                (Ok(x), Ok(y)) if has_proof(&x) && has_proof(&y) => Some((x, y)),
+                _ => None,
+            }
+        } else {
+            None
+        }
+    } else {
+        None
+    };
+    let cross = {
+        // the same beacon in another format
+        let other_kind_cert = st.certs.iter().find(|c| c.beacon == cert.beacon && c.kind != cert.kind && c.kind != CertKind::Stake).cloned();
+        match fmt {
+            Fmt::Legacy => match &other_kind_cert {
+                Some(c) => serve(agg, Fmt::TxV2, c, &q).await.ok(),
+                None => None,
+            },
+            Fmt::TxV2 => {
+                let blocks: Vec<String> = q.iter().filter_map(|h| chain.block_of_tx(h)).map(|b| b.hash.clone()).collect();
+                if blocks.is_empty() {
+                    None
+                } else {
+                    serve(agg, Fmt::BlkV2, cert, &blocks).await.ok()
+                }
+            }
+            Fmt::BlkV2 => {
+                let txs: Vec<String> = q.iter().filter_map(|h| chain.block_by_hash(h)).filter_map(|b| b.txs.first().cloned()).collect();
+                if txs.is_empty() {
+                    None
+                } else {
+                    serve(agg, Fmt::TxV2, cert, &txs).await.ok()
+                }
+            }
+        }
+        .filter(has_proof)
+    };
+    let other_root: Option<Resp> = {
+        let c: Vec<&(Fmt, String, Resp)> = st.history.iter().filter(|(f, h, _)| *f == fmt && h != cert.hash()).collect();
+        if c.is_empty() {
+            None
+        } else {
+            Some(rnd::pick(rng, &c).2.clone())
+        }
+    };
+    let ctx = tamper::Ctx {
+        chain,
+        cert,
+        certs: &st.certs,
+        same_root_other: other_same.as_ref(),
+        other_root: other_root.as_ref(),
+        cross: cross.as_ref(),
+        split: split.as_ref().map(|(a, b)| (a, b)),
+    };
+    let cands = tamper::candidates(&honest, &ctx, rng);
+    for c in cands {
+        judge(st, mon, fmt, cert, &c, state, &qname);
+    }
+    if has_proof(&honest) {
+        st.history.push((fmt, cert.hash().to_string(), honest));
+        if st.history.len() > 60 {
+            st.history.remove(0);
+        }
+    }
+    Ok(())
+}
+
+fn judge(st: &WorldState<'_>, mon: &mut Monitor, fmt: Fmt, cert: &Cert, c: &tamper::Candidate, state: &str, qname: &str) {
+    let outcome = match vcore::catch(|| oracle::client_check(fmt, &c.wire, &st.cert_map)) {
+        Ok(o) => o,
+        Err(p) => {
+            // a panic of the verifier on a response is not an acceptance; it is C05's business
+            mon.count(&format!("{}|{}|PANIC", fmt.as_str(), c.class));
+            mon.count(&format!("client_panic_at|{}", vcore::panic_location(&p)));
+            return;
+        }
+    };
+    mon.eval();
+    mon.count(&format!("{}|{}|{}", fmt.as_str(), c.class, outcome.label()));
+    let parsed = Resp::from_wire(fmt, &c.wire);
+    let replay = |outcome: &Outcome, f: &[(&'static str, String)]| {
+        json!({
+            "kind": "proof", "world": st.tag, "format": fmt.as_str(), "class": c.class, "state": state, "query": qname,
+            "response": serde_json::from_str::<Value>(&c.wire).unwrap_or(Value::String(c.wire.clone())),
+            "honest_certificate": oracle::cert_json(cert),
+            "named_certificate": parsed.as_ref().ok().and_then(|r| st.cert_map.get(r.certificate_hash())).map(oracle::cert_json),
+            "certificate_message": parsed.as_ref().ok().and_then(|r| st.cert_map.get(r.certificate_hash())).map(|c| serde_json::to_value(&c.message).unwrap_or(Value::Null)),
+            "outcome": outcome.label(), "false_claims": f.iter().map(|(s, d)| format!("{s}: {d}")).collect::<Vec<_>>(),
+            "chain": st.chain.to_json(),
+        })
+    };
+    let Ok(resp) = parsed.as_ref() else {
+        if outcome.accepted() {
+            mon.violation("C11 response accepted that the harness cannot decode", &format!("class {}", c.class), replay(&outcome, &[]));
+        }
+        return;
+    };
+    let f = oracle::falsehoods(resp, &st.cert_map, st.chain);
+    if c.class == "honest" {
+        mon.nontrivial_str(&format!("{}|honest|{}", fmt.as_str(), sha(&c.wire)));
+        if !f.is_empty() {
+            // the honest aggregator itself claims something the ground truth denies
+            let (sig, detail) = oracle::most_specific(&f).unwrap();
+            mon.count(&format!("{}|HONEST_RESPONSE_NOT_TRUTHFUL|{sig}", fmt.as_str()));
+            if outcome.accepted() {
+                mon.violation(sig, &format!("HONEST prover response ({}, {state}, query {qname}) claims: {detail}; and the client accepts it", fmt.as_str()), replay(&outcome, &f));
+            }
+        }
+        if !outcome.accepted() && resp.certified_count() > 0 {
+            let sig = if state == "store_ahead" { oracle::SIG_HONEST_REJECTED_AHEAD } else { oracle::SIG_HONEST_REJECTED };
+            mon.violation(sig, &format!("honest {} response ({state}, query {qname}, beacon {}) rejected: {:?}", fmt.as_str(), cert.beacon, outcome), replay(&outcome, &f));
+        }
+        if mon.wants_sample() && resp.certified_count() > 1 && outcome.accepted() {
+            mon.sample(json!({"kind": "proof", "format": fmt.as_str(), "class": "honest", "state": state, "query": qname, "beacon": cert.beacon,
+                "certified_items": resp.certified_count(), "non_certified": resp.non_certified_count(), "outcome": outcome.label()}));
+        }
+        return;
+    }
+    if !f.is_empty() {
+        mon.nontrivial_str(&format!("{}|{}|{}", fmt.as_str(), c.class, sha(&c.wire)));
+        mon.count(&format!("{}|false_responses", fmt.as_str()));
+        if outcome.accepted() {
+            let (sig, detail) = oracle::most_specific(&f).unwrap();
+            mon.count(&format!("{}|ACCEPTED_FALSE|{sig}", fmt.as_str()));
+            mon.violation(
+                sig,
+                &format!("{} response altered by `{}` ({state}, query {qname}, beacon {}) is accepted although: {}", fmt.as_str(), c.class, cert.beacon, f.iter().map(|(s, d)| format!("[{s}] {d}")).collect::<Vec<_>>().join("; ").chars().take(900).collect::<String>()),
+                replay(&outcome, &f),
+            );
+            let _ = detail;
+        } else if mon.wants_sample() && mon.evaluations % 997 == 0 {
+            mon.sample(json!({"kind": "proof", "format": fmt.as_str(), "class": c.class, "state": state, "outcome": outcome.label(),
+                "false_claims": f.iter().map(|(s, _)| *s).collect::<Vec<_>>(),
+                "detail": match &outcome { Outcome::RejectedVerify(e) | Outcome::RejectedDecode(e) => e.clone(), _ => String::new() }}));
+        }
+    } else {
+        // every certified claim of the altered response is true and proven under the signed root
+        mon.count(&format!("{}|truthful_altered|{}", fmt.as_str(), if outcome.accepted() { "accepted" } else { "rejected" }));
+        if let Outcome::Accepted { reported, .. } = &outcome {
+            if *reported != oracle::claimed(resp) {
+                mon.violation(oracle::SIG_REPORT_DIFFERS, &format!("class {}", c.class), replay(&outcome, &f));
+            }
+        }
+    }
+}
+
+// -------------------------------------------------------------------------------------------------
+
+/// `--replay FILE`: re-run the client on the stored response against the stored certificate
+fn replay(path: &std::path::Path) {
+    let doc: Value = match std::fs::read_to_string(path).ok().and_then(|s| serde_json::from_str(&s).ok()) {
+        Some(v) => v,
+        None => {
+            println!("INCONCLUSIVE property=C11 cannot read replay file {}", path.display());
+            std::process::exit(2);
+        }
+    };
+    let r = &doc["replay"];
+    match r["kind"].as_str() {
+        Some("stake") => {
+            use mithril_common::entities::StakeDistribution;
+            use mithril_common::signable_builder::CardanoStakeDistributionSignableBuilder as B;
+            let certified: StakeDistribution = serde_json::from_value(r["certified"].clone()).unwrap_or_default();
+            let served: StakeDistribution = serde_json::from_value(r["served"]["stake_distribution"].clone()).unwrap_or_default();
+            let root = |m: &StakeDistribution| B::compute_merkle_tree_from_stake_distribution(m.clone()).and_then(|t| t.compute_root()).map(|r| r.to_hex()).unwrap_or_default();
+            let (rc, rs) = (root(&certified), root(&served));
+            println!("certified map: {}", serde_json::to_string(&certified).unwrap());
+            println!("served map:    {}", serde_json::to_string(&served).unwrap());
+            println!("certified root {rc}\nserved root    {rs}");
+            if certified != served && rc == rs {
+                println!("VIOLATION property=C11 replay={} (different maps, same Merkle root)", path.display());
+                std::process::exit(1);
+            }
+            println!("HELD property=C11 replayed case does not reproduce");
+        }
+        Some("proof") => {
+            let fmt = match r["format"].as_str() {
+                Some("legacy_tx") => Fmt::Legacy,
+                Some("v2_tx") => Fmt::TxV2,
+                _ => Fmt::BlkV2,
+            };
+            let wire = r["response"].to_string();
+            let Ok(message) = serde_json::from_value::<mithril_common::messages::CertificateMessage>(r["certificate_message"].clone()) else {
+                println!("INCONCLUSIVE property=C11 replay file has no certificate");
+                std::process::exit(2);
+            };
+            let cert = Cert { kind: fmt.cert_kind(), beacon: 0, offset: 0, epoch: 0, signed_parts: message.protocol_message.clone(), message, stakes: None };
+            let mut m = HashMap::new();
+            m.insert(cert.hash().to_string(), cert);
+            let o = oracle::client_check(fmt, &wire, &m);
+            println!("client outcome: {o:?}");
+            println!("false claims recorded: {}", r["false_claims"]);
+            if o.accepted() {
+                println!("VIOLATION property=C11 replay={}", path.display());
+                std::process::exit(1);
+            }
+            println!("HELD property=C11 replayed response is rejected");
+        }
+        _ => {
+            println!("INCONCLUSIVE property=C11 replay kind not supported");
+            std::process::exit(2);
+        }
+    }
+}
